@@ -130,3 +130,27 @@ CLAIMS["C16"] = dict(
     note="Handshake internals are not scheduled (only call order is imposed); the scripted msgStream follows the pion/sctp contract; certificate "
          "laws are sampled; slow-reader path and Read after local Close are not modelled.",
 )
+CLAIMS["C20"] = dict(
+    category="fault_enumeration",
+    technique="TLA+ spec AtomicStore.tla: TLC exhaustive over crash points and failing steps (TargetAlwaysWhole ...) + replay of TLC crash/fail behaviours on the real assets package under strace syscall-level fault injection + validation of the recorded syscall traces",
+    text="AtomicStore.tla models a store as marshal / create temp in the target's directory / write* / close / rename with environment actions Crash "
+         "(any state) and Fail(step, errno) and the in-memory rollback; TLC checks TargetAlwaysWhole, FailedStoreKeepsOldOnDisk, "
+         "FailedReplaceKeepsOldInMemory, TempInSameDirectory (in-place / other-directory / no-rollback instances violate). TLC behaviours are "
+         "instantiated on a child process built from the real assets package under strace: Crash = SIGKILL at the k-th syscall, Fail = injected "
+         "errno; real faults (RLIMIT_FSIZE short write, EACCES as nobody, vanished directory, full tmpfs, read-only remount, immutable target) "
+         "and random-instant kills complement them; after every run the target must parse and equal the old or new configuration. Every strace "
+         "log is validated by Trace_AtomicStore.",
+    note="Needs ptrace/strace (exit 2 if unavailable). strace kills land at syscall entry (mid-write faults come from the real-fault cases and random "
+         "kills); power-loss durability (fsync) is not part of the statement.",
+)
+CLAIMS["C15"] = dict(
+    category="exploration",
+    technique="TLA+ spec Codec.tla (framing / chunking / pointer / symbolic obfuscator laws checked exhaustively by TLC at scaled limits) + TLC-emitted boundary cases instantiated at the real limits on the real encoders/decoders",
+    text="Codec.tla transcribes the length-prefix framings, label / TXT chunking with the name limit, compression-pointer chains and symbolic "
+         "obfuscators with CONSTANT limits; TLC checks RoundTrip, RejectNotAlter, DecoderTotal, Fresh, WrongKeyNeverReveals exhaustively at scaled "
+         "limits (three broken instances violate) and emits the boundary partition at the real limits (255/256, 63/64, 255-byte names, 65535/65536, "
+         "pointer limit, datagram size); four drivers run the real msgformat, dns, requester<->responder (in-memory and loopback UDP with fresh "
+         "Noise keys) and obfuscator / UnmarshalAnypbTo code on every case plus seeded samples and mutated wire bytes.",
+    note="Exploration level: cryptographic round trips are decided by execution on sampled key pairs; decoders on arbitrary bytes are covered by "
+         "structured inputs and their mutation neighbourhoods, not coverage-guided fuzzing. The empty tag is outside the obfuscators' domain.",
+)
